@@ -11,6 +11,14 @@ import Csproto.Bridge.Shim
 #print axioms Csproto.C11.returned_value_correct
 #print axioms Csproto.C11.firstProbe_head
 #print axioms Csproto.C11.firstProbe_none
+#print axioms Csproto.C11.equal_transparent
+#print axioms Csproto.C11.equal_cross_class
+#print axioms Csproto.C11.equal_unsupported
+#print axioms Csproto.C11.equal_ignores_identity
+#print axioms Csproto.C11.shortcut_transparent_iff
+#print axioms Csproto.C11.shortcut_witness
+#print axioms Csproto.C11.shortcut_only_on_same_pointer
+#print axioms Csproto.C11.unary_transparent
 #print axioms Csproto.Bridge.arms_call_owner
 #print axioms Csproto.Bridge.arms_assert_owner
 #print axioms Csproto.Bridge.arms_reach_expected
@@ -22,3 +30,6 @@ import Csproto.Bridge.Shim
 #print axioms Csproto.Bridge.grpcCodec_ok
 #print axioms Csproto.Bridge.resetProbes_ok
 #print axioms Csproto.Bridge.marshalTextProbes_ok
+#print axioms Csproto.Bridge.shimFrame_ok
+#print axioms Csproto.Bridge.shimArms_ok
+#print axioms Csproto.Bridge.shimArms_complete
